@@ -4,29 +4,56 @@ import PycModel.Parser.Stmt
 
 `SeesT s toks`: the tokens the parser will obtain from state `s`, in order, are `toks` (class and
 spelling) - first the buffered ones (`_TokenStream._buffer[_index:]`), then those still to be lexed.
-The scope stack must hold no typedef name (`AllFalse`): then lexing never rewrites an identifier
-to TYPEID, whatever braces are lexed on the way (they push and pop scopes at lex time).
+The scope stack must describe a *static* typedef environment (`Stable`): no name is declared both
+as a type and as an object, and every type name lives in the outermost scope.  Then an identifier
+is rewritten to TYPEID exactly when it is one of those type names, whatever braces are lexed on the
+way (they push and pop scopes at lex time).
 -/
 namespace PycModel.View
 open PycModel
 
 abbrev Tk := String × String
 
-/-- no scope declares a typedef name -/
-def AllFalse (scopes : List Scope) : Prop := ∀ sc ∈ scopes, ∀ e ∈ sc, e.2 = false
+/-- the class the lexer gives a raw token when `ty` says which identifiers are type names -/
+def clsF (ty : String → Bool) (t : Tk) : Tk :=
+  (if t.1 == "ID" && ty t.2 then "TYPEID" else t.1, t.2)
 
-theorem AllFalse.noType {scopes : List Scope} (h : AllFalse scopes) (n : String) :
-    isTypeInScopes scopes n = false := by
-  induction scopes with
-  | nil => rfl
-  | cons sc rest ih =>
-    simp only [isTypeInScopes]
-    cases hl : scopeLookup sc n with
-    | none => exact ih (fun s hs => h s (by simp [hs]))
-    | some b =>
-      simp only [scopeLookup, Option.map_eq_some_iff] at hl
-      obtain ⟨e, he, rfl⟩ := hl
-      exact h sc (by simp) e (List.mem_of_find?_eq_some he)
+/-- the scope stack describes the *static* typedef environment `ty`: every entry of every scope
+says what `ty` says (no name is declared both ways), and the outermost scope holds every type
+name (so no type name goes out of scope when a block closes) -/
+def Agrees (ty : String → Bool) (scopes : List Scope) : Prop :=
+  (∀ sc ∈ scopes, ∀ e ∈ sc, e.2 = ty e.1) ∧
+  (∃ init last, scopes = init ++ [last] ∧ ∀ n, ty n = true → scopeLookup last n = some true)
+
+theorem scopeLookup_mem {sc : Scope} {n : String} {b : Bool} (h : scopeLookup sc n = some b) : (n, b) ∈ sc := by
+  simp only [scopeLookup, Option.map_eq_some_iff] at h
+  obtain ⟨e, he, rfl⟩ := h
+  have h1 := List.find?_some he
+  have : e.1 = n := by simpa using h1
+  have hm := List.mem_of_find?_eq_some he
+  cases e; simp_all
+
+/-- under `Agrees`, `_is_type_in_scope` computes `ty` -/
+theorem Agrees.lookup {ty : String → Bool} {scopes : List Scope} (h : Agrees ty scopes) (n : String) :
+    isTypeInScopes scopes n = ty n := by
+  obtain ⟨hall, init, last, rfl, hlast⟩ := h
+  induction init with
+  | nil =>
+    simp only [List.nil_append, isTypeInScopes]
+    cases hl : scopeLookup last n with
+    | some b => exact hall last (by simp) (n, b) (scopeLookup_mem hl)
+    | none =>
+      cases ht : ty n with
+      | false => rfl
+      | true => rw [hlast n ht] at hl; cases hl
+  | cons a init ih =>
+    simp only [List.cons_append, isTypeInScopes]
+    cases hl : scopeLookup a n with
+    | some b => exact hall a (by simp) (n, b) (scopeLookup_mem hl)
+    | none => exact ih (fun sc hsc => hall sc (by simp only [List.cons_append, List.mem_cons]; exact .inr hsc))
+
+theorem Agrees.funext {ty : String → Bool} {scopes : List Scope} (h : Agrees ty scopes) :
+    isTypeInScopes scopes = ty := _root_.funext h.lookup
 
 /-- what lexing a token of class `k` does to the scope stack (`on_lbrace_func` / `on_rbrace_func`) -/
 def lexScopes (k : String) (scopes : List Scope) : List Scope :=
@@ -34,28 +61,50 @@ def lexScopes (k : String) (scopes : List Scope) : List Scope :=
   else if k == "RBRACE" then (match scopes with | _ :: b :: rest => b :: rest | sc => sc)
   else scopes
 
-theorem AllFalse.lex {scopes : List Scope} (h : AllFalse scopes) (k : String) : AllFalse (lexScopes k scopes) := by
+theorem Agrees.lex {ty : String → Bool} {scopes : List Scope} (h : Agrees ty scopes) (k : String) :
+    Agrees ty (lexScopes k scopes) := by
   unfold lexScopes
   split
-  · intro sc hsc; simp only [List.mem_cons] at hsc
+  · obtain ⟨hall, init, last, rfl, hlast⟩ := h
+    refine ⟨?_, [] :: init, last, rfl, hlast⟩
+    intro sc hsc; simp only [List.mem_cons] at hsc
     rcases hsc with rfl | hsc
     · intro e he; simp at he
-    · exact h sc hsc
+    · exact hall sc hsc
   · split
     · split
       · rename_i a b rest
-        exact fun sc hsc => h sc (by simp only [List.mem_cons] at hsc ⊢; rcases hsc with h' | h' <;> simp [h'])
+        obtain ⟨hall, init, last, heq, hlast⟩ := h
+        refine ⟨fun sc hsc => hall sc (by simp only [List.mem_cons] at hsc ⊢; rcases hsc with h' | h' <;> simp [h']), ?_⟩
+        cases init with
+        | nil => simp at heq
+        | cons a' init' =>
+          simp only [List.cons_append, List.cons.injEq] at heq
+          exact ⟨init', last, heq.2, hlast⟩
       · exact h
     · exact h
 
-/-- `e`: the end-of-input marker (`None`) has already been lexed into the buffer -/
+/-- the static environment of a state: what its scope stack says now -/
+abbrev tyOf (s : PState) : String → Bool := isTypeInScopes s.scopes
+
+/-- `Stable scopes`: the stack agrees with its own lookup function -/
+abbrev Stable (scopes : List Scope) : Prop := Agrees (isTypeInScopes scopes) scopes
+
+theorem Stable.lex {scopes : List Scope} (h : Stable scopes) (k : String) :
+    isTypeInScopes (lexScopes k scopes) = isTypeInScopes scopes ∧ Stable (lexScopes k scopes) := by
+  have h1 := (Agrees.lex h k).funext
+  exact ⟨h1, by unfold Stable; rw [h1]; exact Agrees.lex h k⟩
+
+/-- `e`: the end-of-input marker (`None`) has already been lexed into the buffer.
+`rt` are the tokens still to be lexed, as the scanner delivers them (every identifier `ID`);
+`toks` shows them with the class the lexer callback will give them (`TYPEID` for type names). -/
 structure SeesT (s : PState) (toks : List Tk) : Prop where
   buffered : ∃ (bt : List PTok) (rt : List Tk) (e : Bool),
     s.buf.toList.drop s.idx = bt.map some ++ (if e then [none] else []) ∧
     s.raw = rt.map (fun t => SEv.tok t.1 t.2) ++ [.eof] ∧
-    toks = bt.map (fun t => (t.kind, t.val)) ++ rt ∧
+    toks = bt.map (fun t => (t.kind, t.val)) ++ rt.map (clsF (isTypeInScopes s.scopes)) ∧
     (e = true → rt = []) ∧
-    AllFalse s.scopes ∧
+    Stable s.scopes ∧
     (e = false → s.pulled = s.buf.size)
   idx_le : s.idx ≤ s.buf.size
   /-- a token's `idx` is its position in the buffer (= in the stripped event stream) -/
@@ -64,18 +113,14 @@ structure SeesT (s : PState) (toks : List Tk) : Prop where
 theorem bind_apply {α β} (m : P α) (f : α → P β) (s : PState) :
     (m >>= f) s = match m s with | .ok a s' => f a s' | .err e => .err e := rfl
 
-/-- lexing one token when no typedef name is in scope -/
-theorem lexToken_tok (s : PState) (k v : String) (r : List SEv) (hr : s.raw = .tok k v :: r)
-    (hn : AllFalse s.scopes) :
-    lexToken s = .ok (some ⟨k, v, s.pulled⟩)
+/-- lexing one token: identifiers are classified by the scope stack as it is now -/
+theorem lexToken_tok (s : PState) (k v : String) (r : List SEv) (hr : s.raw = .tok k v :: r) :
+    lexToken s = .ok (some ⟨(clsF (isTypeInScopes s.scopes) (k, v)).1, v, s.pulled⟩)
       { s with raw := r, pulled := s.pulled + 1, fileRef := s.pulled + 1, lexCalls := s.lexCalls + 1,
                scopes := lexScopes k s.scopes } := by
   unfold lexToken
   rw [hr]
-  simp only
-  have hk : (if (k == "ID" && isTypeInScopes s.scopes v) = true then "TYPEID" else k) = k := by
-    simp [hn.noType v]
-  rw [hk]
+  simp only [clsF]
   unfold lexScopes
   by_cases h1 : k = "LBRACE"
   · subst h1; simp
@@ -86,9 +131,16 @@ theorem lexToken_tok (s : PState) (k v : String) (r : List SEv) (hr : s.raw = .t
       | cons a t => cases t <;> simp [hs]
     · simp [h1, h2]
 
-theorem SeesT.allFalse {s : PState} {toks : List Tk} (h : SeesT s toks) : AllFalse s.scopes := by
+theorem SeesT.stable {s : PState} {toks : List Tk} (h : SeesT s toks) : Stable s.scopes := by
   obtain ⟨⟨_, _, _, _, _, _, _, hn, _⟩, _, _⟩ := h
   exact hn
+
+/-- the static typedef environment is the same in both states -/
+def TyEq (s s' : PState) : Prop := isTypeInScopes s'.scopes = isTypeInScopes s.scopes
+
+theorem TyEq.refl (s : PState) : TyEq s s := rfl
+theorem TyEq.trans {a b c : PState} (h1 : TyEq a b) (h2 : TyEq b c) : TyEq a c := by
+  unfold TyEq at *; rw [h2, h1]
 
 theorem getElem?_of_drop_cons {α} {l : List α} {i : Nat} {x : α} {xs : List α}
     (h : l.drop i = x :: xs) : l[i]? = some x := by
@@ -137,7 +189,7 @@ theorem pos_push_none {buf : Array (Option PTok)}
 /-- `peek` on a state that sees at least one token: returns it (its index is the read position),
 consumes nothing -/
 theorem peek_spec (s : PState) (k v : String) (toks : List Tk) (h : SeesT s ((k, v) :: toks)) :
-    ∃ s', peek s = .ok (some ⟨k, v, s.idx⟩) s' ∧ SeesT s' ((k, v) :: toks) ∧ AllFalse s'.scopes ∧ s'.idx = s.idx ∧
+    ∃ s', peek s = .ok (some ⟨k, v, s.idx⟩) s' ∧ SeesT s' ((k, v) :: toks) ∧ TyEq s s' ∧ s'.idx = s.idx ∧
       BufExt s s' ∧ s.buf.size ≤ s'.buf.size := by
   obtain ⟨⟨bt, rt, e, hbuf, hraw, htoks, he, hneu, hpul⟩, hle, hpos⟩ := h
   cases bt with
@@ -151,14 +203,23 @@ theorem peek_spec (s : PState) (k v : String) (toks : List Tk) (h : SeesT s ((k,
       have := (Array.getElem?_eq_some_iff.mp hget).1
       omega
     have hti := hpos _ _ hget
-    refine ⟨{ s with ticks := s.ticks + 1 }, ?_, ⟨⟨t :: bt', rt, e, hbuf, hraw, ?_, he, hneu, hpul⟩, hle, hpos⟩, hneu, rfl, fun j _ => rfl, Nat.le_refl _⟩
+    refine ⟨{ s with ticks := s.ticks + 1 }, ?_, ⟨⟨t :: bt', rt, e, hbuf, hraw, ?_, he, hneu, hpul⟩, hle, hpos⟩, rfl, rfl, fun j _ => rfl, Nat.le_refl _⟩
     · simp only [peek, peekK, fill]
       simp [hlt, hget]
       cases t; simp_all
     · simp [hk, hv, htl]
   | nil =>
     simp only [List.map_nil, List.nil_append] at htoks hbuf
-    subst htoks
+    cases rt with
+    | nil => simp at htoks
+    | cons t0 rt' =>
+    obtain ⟨k0, v0⟩ := t0
+    simp only [List.map_cons, List.cons.injEq] at htoks
+    obtain ⟨hkv, htl⟩ := htoks
+    have hv : v = v0 := congrArg Prod.snd hkv
+    have hk : k = (clsF (isTypeInScopes s.scopes) (k0, v0)).1 := congrArg Prod.fst hkv
+    subst hv
+    subst hk
     have he' : e = false := by cases e with | false => rfl | true => simp at he
     subst he'
     simp only [Bool.false_eq_true, ↓reduceIte] at hbuf
@@ -166,17 +227,18 @@ theorem peek_spec (s : PState) (k v : String) (toks : List Tk) (h : SeesT s ((k,
     have hp := hpul rfl
     simp only [List.map_cons, List.cons_append] at hraw
     let s0 : PState := { s with ticks := s.ticks + 1 }
-    have hlex := lexToken_tok s0 k v _ hraw hneu
-    let tok : PTok := ⟨k, v, s.pulled⟩
-    refine ⟨{ s0 with raw := toks.map (fun t => SEv.tok t.1 t.2) ++ [.eof], pulled := s.pulled + 1,
+    have hlex := lexToken_tok s0 k0 v _ hraw
+    obtain ⟨hty, hst⟩ := hneu.lex k0
+    let tok : PTok := ⟨(clsF (isTypeInScopes s.scopes) (k0, v)).1, v, s.pulled⟩
+    refine ⟨{ s0 with raw := rt'.map (fun t => SEv.tok t.1 t.2) ++ [.eof], pulled := s.pulled + 1,
                        fileRef := s.pulled + 1, lexCalls := s.lexCalls + 1,
-                       buf := s.buf.push (some tok), scopes := lexScopes k s.scopes }, ?_,
-            ⟨⟨[tok], toks, false, ?_, rfl, rfl, by simp, ?_, ?_⟩, ?_, ?_⟩, hneu.lex k, rfl, bufExt_push s _ _ rfl, by simp⟩
+                       buf := s.buf.push (some tok), scopes := lexScopes k0 s.scopes }, ?_,
+            ⟨⟨[tok], rt', false, ?_, rfl, ?_, by simp, hst, ?_⟩, ?_, ?_⟩, hty, rfl, bufExt_push s _ _ rfl, by simp⟩
     · have hlt : s0.buf.size < s0.idx + 1 := by show s.buf.size < s.idx + 1; omega
       have hfill : fill 1 1 { s with ticks := s.ticks + 1 } = .ok ()
-          { s0 with raw := toks.map (fun t => SEv.tok t.1 t.2) ++ [.eof], pulled := s.pulled + 1,
+          { s0 with raw := rt'.map (fun t => SEv.tok t.1 t.2) ++ [.eof], pulled := s.pulled + 1,
                     fileRef := s.pulled + 1, lexCalls := s.lexCalls + 1, buf := s.buf.push (some tok),
-                    scopes := lexScopes k s.scopes } := by
+                    scopes := lexScopes k0 s.scopes } := by
         show fill 1 1 s0 = _
         simp only [fill, hlt, ↓reduceIte, hlex]
         rfl
@@ -187,7 +249,8 @@ theorem peek_spec (s : PState) (k v : String) (toks : List Tk) (h : SeesT s ((k,
       simp [hsz, tok, s0, hp]
     · show (s.buf.push (some tok)).toList.drop s.idx = _
       simp [hsz]
-    · exact hneu.lex k
+    · show _ :: toks = [tok].map (fun t => (t.kind, t.val)) ++ rt'.map (clsF (isTypeInScopes (lexScopes k0 s.scopes)))
+      rw [hty, htl]; rfl
     · intro _; show s.pulled + 1 = (s.buf.push (some tok)).size; simp; omega
     · show s.idx ≤ (s.buf.push (some tok)).size
       simp; omega
@@ -195,7 +258,7 @@ theorem peek_spec (s : PState) (k v : String) (toks : List Tk) (h : SeesT s ((k,
 
 /-- `advance` on a state that sees at least one token: returns it and moves past it -/
 theorem advance_spec (s : PState) (k v : String) (toks : List Tk) (h : SeesT s ((k, v) :: toks)) :
-    ∃ s', advance s = .ok ⟨k, v, s.idx⟩ s' ∧ SeesT s' toks ∧ AllFalse s'.scopes ∧ s'.idx = s.idx + 1 ∧
+    ∃ s', advance s = .ok ⟨k, v, s.idx⟩ s' ∧ SeesT s' toks ∧ TyEq s s' ∧ s'.idx = s.idx + 1 ∧
       BufExt s s' ∧ s.buf.size ≤ s'.buf.size ∧ s'.buf[s.idx]? = some (some ⟨k, v, s.idx⟩) := by
   obtain ⟨⟨bt, rt, e, hbuf, hraw, htoks, he, hneu, hpul⟩, hle, hpos⟩ := h
   cases bt with
@@ -209,7 +272,7 @@ theorem advance_spec (s : PState) (k v : String) (toks : List Tk) (h : SeesT s (
     have hlt : ¬ s.buf.size < s.idx + 1 := by omega
     have hti := hpos _ _ hget
     refine ⟨{ s with ticks := s.ticks + 1, idx := s.idx + 1 }, ?_,
-      ⟨⟨bt', rt, e, ?_, hraw, htl, he, hneu, hpul⟩, ?_, hpos⟩, hneu, rfl, fun j _ => rfl, Nat.le_refl _, ?_⟩
+      ⟨⟨bt', rt, e, ?_, hraw, htl, he, hneu, hpul⟩, ?_, hpos⟩, rfl, rfl, fun j _ => rfl, Nat.le_refl _, ?_⟩
     · simp only [advance, nextTok, fill, bind_apply]
       simp [hlt, hget]
       cases t; simp_all
@@ -223,7 +286,16 @@ theorem advance_spec (s : PState) (k v : String) (toks : List Tk) (h : SeesT s (
       rw [hget]; cases t; simp_all
   | nil =>
     simp only [List.map_nil, List.nil_append] at htoks hbuf
-    subst htoks
+    cases rt with
+    | nil => simp at htoks
+    | cons t0 rt' =>
+    obtain ⟨k0, v0⟩ := t0
+    simp only [List.map_cons, List.cons.injEq] at htoks
+    obtain ⟨hkv, htl⟩ := htoks
+    have hv : v = v0 := congrArg Prod.snd hkv
+    have hk : k = (clsF (isTypeInScopes s.scopes) (k0, v0)).1 := congrArg Prod.fst hkv
+    subst hv
+    subst hk
     have he' : e = false := by cases e with | false => rfl | true => simp at he
     subst he'
     simp only [Bool.false_eq_true, ↓reduceIte] at hbuf
@@ -231,17 +303,18 @@ theorem advance_spec (s : PState) (k v : String) (toks : List Tk) (h : SeesT s (
     have hp := hpul rfl
     simp only [List.map_cons, List.cons_append] at hraw
     let s0 : PState := { s with ticks := s.ticks + 1 }
-    have hlex := lexToken_tok s0 k v _ hraw hneu
-    let tok : PTok := ⟨k, v, s.pulled⟩
-    refine ⟨{ s0 with raw := toks.map (fun t => SEv.tok t.1 t.2) ++ [.eof], pulled := s.pulled + 1,
+    have hlex := lexToken_tok s0 k0 v _ hraw
+    obtain ⟨hty, hst⟩ := hneu.lex k0
+    let tok : PTok := ⟨(clsF (isTypeInScopes s.scopes) (k0, v)).1, v, s.pulled⟩
+    refine ⟨{ s0 with raw := rt'.map (fun t => SEv.tok t.1 t.2) ++ [.eof], pulled := s.pulled + 1,
                        fileRef := s.pulled + 1, lexCalls := s.lexCalls + 1,
-                       buf := s.buf.push (some tok), idx := s.idx + 1, scopes := lexScopes k s.scopes }, ?_,
-            ⟨⟨[], toks, false, ?_, rfl, rfl, by simp, ?_, ?_⟩, ?_, ?_⟩, hneu.lex k, rfl, bufExt_push s _ _ rfl, by simp, ?_⟩
+                       buf := s.buf.push (some tok), idx := s.idx + 1, scopes := lexScopes k0 s.scopes }, ?_,
+            ⟨⟨[], rt', false, ?_, rfl, ?_, by simp, hst, ?_⟩, ?_, ?_⟩, hty, rfl, bufExt_push s _ _ rfl, by simp, ?_⟩
     · have hlt : s0.buf.size < s0.idx + 1 := by show s.buf.size < s.idx + 1; omega
       have hfill : fill 1 1 { s with ticks := s.ticks + 1 } = .ok ()
-          { s0 with raw := toks.map (fun t => SEv.tok t.1 t.2) ++ [.eof], pulled := s.pulled + 1,
+          { s0 with raw := rt'.map (fun t => SEv.tok t.1 t.2) ++ [.eof], pulled := s.pulled + 1,
                     fileRef := s.pulled + 1, lexCalls := s.lexCalls + 1, buf := s.buf.push (some tok),
-                    scopes := lexScopes k s.scopes } := by
+                    scopes := lexScopes k0 s.scopes } := by
         show fill 1 1 s0 = _
         simp only [fill, hlt, ↓reduceIte, hlex]
         rfl
@@ -251,7 +324,8 @@ theorem advance_spec (s : PState) (k v : String) (toks : List Tk) (h : SeesT s (
       rfl
     · show (s.buf.push (some tok)).toList.drop (s.idx + 1) = _
       simp [hsz]
-    · exact hneu.lex k
+    · show toks = ([] : List PTok).map (fun t => (t.kind, t.val)) ++ rt'.map (clsF (isTypeInScopes (lexScopes k0 s.scopes)))
+      rw [hty, htl]; rfl
     · intro _; show s.pulled + 1 = (s.buf.push (some tok)).size; simp; omega
     · show s.idx + 1 ≤ (s.buf.push (some tok)).size
       simp; omega
@@ -261,7 +335,7 @@ theorem advance_spec (s : PState) (k v : String) (toks : List Tk) (h : SeesT s (
 
 /-- `peek` at the end of the input returns `None` (and may record the end marker) -/
 theorem peek_end (s : PState) (h : SeesT s []) :
-    ∃ s', peek s = .ok none s' ∧ SeesT s' [] ∧ AllFalse s'.scopes ∧ s'.idx = s.idx ∧
+    ∃ s', peek s = .ok none s' ∧ SeesT s' [] ∧ TyEq s s' ∧ s'.idx = s.idx ∧
       BufExt s s' ∧ s.buf.size ≤ s'.buf.size := by
   obtain ⟨⟨bt, rt, e, hbuf, hraw, htoks, he, hneu, hpul⟩, hle, hpos⟩ := h
   have hbt : bt = [] := by cases bt with | nil => rfl | cons _ _ => simp at htoks
@@ -278,7 +352,7 @@ theorem peek_end (s : PState) (h : SeesT s []) :
       have := (Array.getElem?_eq_some_iff.mp hget).1
       omega
     refine ⟨{ s with ticks := s.ticks + 1 }, ?_,
-      ⟨⟨[], [], true, by simpa using hbuf, by simpa using hraw, rfl, by simp, hneu, by simp⟩, hle, hpos⟩, hneu, rfl, fun j _ => rfl, Nat.le_refl _⟩
+      ⟨⟨[], [], true, by simpa using hbuf, by simpa using hraw, rfl, by simp, hneu, by simp⟩, hle, hpos⟩, rfl, rfl, fun j _ => rfl, Nat.le_refl _⟩
     simp only [peek, peekK, fill]
     simp [hlt, hget]
   | false =>
@@ -296,7 +370,7 @@ theorem peek_end (s : PState) (h : SeesT s []) :
       simp only [fill, hlt, ↓reduceIte, hlex]
       rfl
     refine ⟨{ s0 with fileRef := s.pulled + 1, lexCalls := s.lexCalls + 1, buf := s.buf.push none }, ?_,
-      ⟨⟨[], [], true, ?_, by simpa using hraw, rfl, by simp, hneu, by simp⟩, ?_, pos_push_none hpos⟩, hneu, rfl, bufExt_push s _ _ rfl, by simp⟩
+      ⟨⟨[], [], true, ?_, by simpa using hraw, rfl, by simp, hneu, by simp⟩, ?_, pos_push_none hpos⟩, rfl, rfl, bufExt_push s _ _ rfl, by simp⟩
     · show peekK 1 s = _
       unfold peekK
       simp only [show ((1 : Nat) == 0) = false from rfl, Bool.false_eq_true, ↓reduceIte]
@@ -313,13 +387,13 @@ theorem peek_end (s : PState) (h : SeesT s []) :
 /-- `_fill(n)` when at least `n` tokens are still to come: buffers them, changes nothing else -/
 theorem fill_spec : ∀ (fuel n : Nat) (s : PState) (toks : List Tk), SeesT s toks → n ≤ toks.length →
     n ≤ fuel + (s.buf.size - s.idx) →
-    ∃ s', fill fuel n s = .ok () s' ∧ SeesT s' toks ∧ AllFalse s'.scopes ∧ s'.idx = s.idx ∧
+    ∃ s', fill fuel n s = .ok () s' ∧ SeesT s' toks ∧ TyEq s s' ∧ s'.idx = s.idx ∧
       BufExt s s' ∧ s.buf.size ≤ s'.buf.size ∧ s.idx + n ≤ s'.buf.size ∧ s'.ticks = s.ticks := by
   intro fuel
   induction fuel with
   | zero =>
     intro n s toks h hn hf
-    refine ⟨s, rfl, h, h.allFalse, rfl, fun _ _ => rfl, Nat.le_refl _, ?_, rfl⟩
+    refine ⟨s, rfl, h, rfl, rfl, fun _ _ => rfl, Nat.le_refl _, ?_, rfl⟩
     have := h.idx_le; omega
   | succ fuel ih =>
     intro n s toks h hn hf
@@ -342,37 +416,39 @@ theorem fill_spec : ∀ (fuel n : Nat) (s : PState) (toks : List Tk), SeesT s to
         obtain ⟨k, v⟩ := t
         have hp := hpul rfl
         simp only [List.map_cons, List.cons_append] at hraw
-        have hlex := lexToken_tok s k v _ hraw hneu
-        let tok : PTok := ⟨k, v, s.pulled⟩
+        have hlex := lexToken_tok s k v _ hraw
+        obtain ⟨hty, hst⟩ := hneu.lex k
+        let tok : PTok := ⟨(clsF (isTypeInScopes s.scopes) (k, v)).1, v, s.pulled⟩
         let s1 : PState := { s with raw := rt'.map (fun t => SEv.tok t.1 t.2) ++ [.eof], pulled := s.pulled + 1,
                                     fileRef := s.pulled + 1, lexCalls := s.lexCalls + 1, buf := s.buf.push (some tok),
                                     scopes := lexScopes k s.scopes }
         have hs1 : SeesT s1 toks := by
-          refine ⟨⟨bt ++ [tok], rt', false, ?_, rfl, ?_, by simp, ?_, ?_⟩, ?_, ?_⟩
+          refine ⟨⟨bt ++ [tok], rt', false, ?_, rfl, ?_, by simp, hst, ?_⟩, ?_, ?_⟩
           · show (s.buf.push (some tok)).toList.drop s.idx = _
             simp only [Array.toList_push, List.map_append, List.map_cons, List.map_nil]
             rw [List.drop_append_of_le_length (by simp; exact hle), hbuf]
             simp
-          · rw [htoks]; simp [tok]
-          · exact hneu.lex k
+          · show toks = (bt ++ [tok]).map (fun t => (t.kind, t.val)) ++ rt'.map (clsF (isTypeInScopes (lexScopes k s.scopes)))
+            rw [htoks, hty]; simp [tok, clsF]
           · intro _; show s.pulled + 1 = (s.buf.push (some tok)).size; simp; omega
           · show s.idx ≤ (s.buf.push (some tok)).size; simp; omega
           · exact pos_push_some hpos (by show s.pulled = s.buf.size; exact hp)
+        have hty1 : TyEq s s1 := hty
         obtain ⟨s', hf', hs', hsc, hidx, hext, hsz, hnb, htk⟩ := ih n s1 toks hs1 hn (by
           show n ≤ fuel + ((s.buf.push (some tok)).size - s.idx); simp; omega)
-        refine ⟨s', ?_, hs', hsc, hidx, ?_, ?_, hnb, htk⟩
+        refine ⟨s', ?_, hs', hty1.trans hsc, hidx, ?_, ?_, hnb, htk⟩
         · simp only [fill, hlt, ↓reduceIte, hlex]
           exact hf'
         · exact BufExt.trans (bufExt_push s _ s1 rfl) hext (by show s.buf.size ≤ (s.buf.push (some tok)).size; simp)
         · have : s.buf.size ≤ s1.buf.size := by show s.buf.size ≤ (s.buf.push (some tok)).size; simp
           omega
-    · refine ⟨s, by simp [fill, hlt], h, h.allFalse, rfl, fun _ _ => rfl, Nat.le_refl _, by omega, rfl⟩
+    · refine ⟨s, by simp [fill, hlt], h, rfl, rfl, fun _ _ => rfl, Nat.le_refl _, by omega, rfl⟩
 
 
 /-- `peek(k)` (k >= 1) when at least `k` tokens are still to come -/
 theorem peekK_spec (kk : Nat) (s : PState) (toks : List Tk) (t : Tk) (h : SeesT s toks)
     (ht : toks[kk]? = some t) :
-    ∃ s', peekK (kk + 1) s = .ok (some ⟨t.1, t.2, s.idx + kk⟩) s' ∧ SeesT s' toks ∧ AllFalse s'.scopes ∧
+    ∃ s', peekK (kk + 1) s = .ok (some ⟨t.1, t.2, s.idx + kk⟩) s' ∧ SeesT s' toks ∧ TyEq s s' ∧
       s'.idx = s.idx ∧ BufExt s s' ∧ s.buf.size ≤ s'.buf.size := by
   have hlen : kk + 1 ≤ toks.length := by
     have := (List.getElem?_eq_some_iff.mp ht).1; omega
@@ -419,12 +495,12 @@ theorem peekK_spec (kk : Nat) (s : PState) (toks : List Tk) (t : Tk) (h : SeesT 
 /-- going back over one token that is still in the buffer (`_reset(mark)` right after an `_advance`) -/
 theorem reset_one (s : PState) (toks : List Tk) (m : Nat) (t : PTok) (h : SeesT s toks) (hi : s.idx = m + 1)
     (hb : s.buf[m]? = some (some t)) :
-    ∃ s', reset m s = .ok () s' ∧ SeesT s' ((t.kind, t.val) :: toks) ∧ AllFalse s'.scopes ∧ s'.idx = m ∧
+    ∃ s', reset m s = .ok () s' ∧ SeesT s' ((t.kind, t.val) :: toks) ∧ TyEq s s' ∧ s'.idx = m ∧
       BufExt s s' ∧ s.buf.size ≤ s'.buf.size := by
   obtain ⟨⟨bt, rt, e, hbuf, hraw, htoks, he, hneu, hpul⟩, hle, hpos⟩ := h
   refine ⟨{ s with idx := m, ticks := s.ticks + 1 }, rfl,
     ⟨⟨t :: bt, rt, e, ?_, hraw, by simp [htoks], he, hneu, hpul⟩, by show m ≤ s.buf.size; omega, hpos⟩,
-    hneu, rfl, fun _ _ => rfl, Nat.le_refl _⟩
+    rfl, rfl, fun _ _ => rfl, Nat.le_refl _⟩
   show s.buf.toList.drop m = _
   have hlt : m < s.buf.toList.length := by
     have := (Array.getElem?_eq_some_iff.mp hb).1; simpa using this
@@ -435,5 +511,83 @@ theorem reset_one (s : PState) (toks : List Tk) (m : Nat) (t : PTok) (h : SeesT 
     exact Option.some.inj this
   rw [hg, ← hi, hbuf]
   simp
+
+/-! ## registering an ordinary identifier that is not a type name -/
+
+theorem scopeLookup_set_ne (sc : Scope) (n m : String) (b : Bool) (h : m ≠ n) :
+    scopeLookup (scopeSet sc n b) m = scopeLookup sc m := by
+  simp only [scopeLookup, scopeSet]
+  rw [List.find?_cons_of_neg (by simpa using fun h' => h h'.symm)]
+  congr 1
+  induction sc with
+  | nil => rfl
+  | cons e sc ih =>
+    by_cases he : e.1 = n
+    · have : (e.1 != n) = false := by simp [he]
+      rw [List.filter_cons_of_neg (by simp [he])]
+      rw [ih, List.find?_cons_of_neg (by simp [he]; exact fun h' => h h'.symm)]
+    · rw [List.filter_cons_of_pos (by simp [he])]
+      by_cases hm : e.1 = m
+      · rw [List.find?_cons_of_pos (by simp [hm]), List.find?_cons_of_pos (by simp [hm])]
+      · rw [List.find?_cons_of_neg (by simp [hm]), List.find?_cons_of_neg (by simp [hm]), ih]
+
+theorem scopeLookup_set_eq (sc : Scope) (n : String) (b : Bool) : scopeLookup (scopeSet sc n b) n = some b := by
+  simp [scopeLookup, scopeSet]
+
+theorem mem_scopeSet {sc : Scope} {n : String} {b : Bool} {e : String × Bool} (h : e ∈ scopeSet sc n b) :
+    e = (n, b) ∨ e ∈ sc := by
+  simp only [scopeSet, List.mem_cons, List.mem_filter] at h
+  rcases h with h | h
+  · exact .inl h
+  · exact .inr h.1
+
+/-- `_add_identifier(n)` for a name that is not a type name keeps the static environment, hence
+the token view -/
+theorem addIdentifier_spec (s : PState) (toks : List Tk) (n : String) (c : Option Coord) (h : SeesT s toks)
+    (hn : isTypeInScopes s.scopes n = false) :
+    ∃ s', addIdentifier n c s = .ok () s' ∧ SeesT s' toks ∧ TyEq s s' ∧ s'.idx = s.idx ∧ s'.buf = s.buf := by
+  obtain ⟨⟨bt, rt, e, hbuf, hraw, htoks, he, hneu, hpul⟩, hle, hpos⟩ := h
+  obtain ⟨hall, init, last, heq, hlast⟩ := hneu
+  cases hsc : s.scopes with
+  | nil => rw [hsc] at heq; simp at heq
+  | cons sc rest =>
+    have hlk : (scopeLookup sc n).getD false = false := by
+      cases hl : scopeLookup sc n with
+      | none => rfl
+      | some b =>
+        have := hall sc (by rw [hsc]; simp) (n, b) (scopeLookup_mem hl)
+        simp only at this
+        rw [this, hn]; rfl
+    -- the new stack agrees with the old environment
+    have hag : Agrees (isTypeInScopes s.scopes) (scopeSet sc n false :: rest) := by
+      refine ⟨?_, ?_⟩
+      · intro sc' hsc' e' he'
+        simp only [List.mem_cons] at hsc'
+        rcases hsc' with rfl | hsc'
+        · rcases mem_scopeSet he' with rfl | hm
+          · exact hn.symm
+          · exact hall sc (by rw [hsc]; simp) e' hm
+        · exact hall sc' (by rw [hsc]; simp [hsc']) e' he'
+      · rw [hsc] at heq
+        cases init with
+        | nil =>
+          simp only [List.nil_append, List.cons.injEq] at heq
+          obtain ⟨rfl, rfl⟩ := heq
+          refine ⟨[], scopeSet sc n false, rfl, ?_⟩
+          intro m hm
+          have hmn : m ≠ n := by rintro rfl; rw [hn] at hm; cases hm
+          rw [scopeLookup_set_ne _ _ _ _ hmn]; exact hlast m hm
+        | cons a init' =>
+          simp only [List.cons_append, List.cons.injEq] at heq
+          exact ⟨scopeSet sc n false :: init', last, by rw [heq.2]; rfl, hlast⟩
+    have hty : isTypeInScopes (scopeSet sc n false :: rest) = isTypeInScopes s.scopes := hag.funext
+    refine ⟨{ s with scopes := scopeSet sc n false :: rest }, ?_, ⟨⟨bt, rt, e, hbuf, hraw, ?_, he, ?_, hpul⟩, hle, hpos⟩, hty, rfl, rfl⟩
+    · unfold addIdentifier
+      rw [hsc]
+      simp [hlk]
+    · show toks = _ ++ rt.map (clsF (isTypeInScopes (scopeSet sc n false :: rest)))
+      rw [hty]; exact htoks
+    · show Agrees (isTypeInScopes (scopeSet sc n false :: rest)) (scopeSet sc n false :: rest)
+      rw [hty]; exact hag
 
 end PycModel.View
